@@ -214,7 +214,8 @@ CONFIG_SEQUENCES = [
 def check_invalid_case(case, acc):
     from cardutil import mciipm, config
     kind = case['kind']
-    acc.case((kind, case.get('n'), case.get('bit'), case.get('max')), nontrivial=True, outcome='invalid:' + kind)
+    acc.case((kind, case.get('n'), case.get('bit'), case.get('max'), repr(case.get('bytes'))), nontrivial=True,
+             outcome='invalid:' + kind)
     old = config.config.get('MAX_VBS_RECORD_LENGTH')
     bm_ok = b'\xc0' + b'\x00' * 15
     try:
@@ -233,6 +234,12 @@ def check_invalid_case(case, acc):
             ln = mx + case['delta']
             data = struct.pack('>I', ln) + b'1240' + bm_ok + b'02AB' + b'x' * 40
             expect_invalid = case['delta'] > 0
+        elif kind == 'full_byte':
+            bm = bytearray(16)
+            bm[0] |= 0x80
+            for i in case['bytes']:
+                bm[i] = 0xff
+            data = struct.pack('>I', 60) + b'1240' + bytes(bm) + b'x' * 60
         elif kind == 'unconfigured_bit':
             bm = bytearray(16)
             bm[0] |= 0x80
@@ -287,6 +294,10 @@ def enumerate_cases(tier, seed):
     for mx in (None, 100, 1012):
         for delta in (-1, 0, 1, 2, 1000):
             cases.append({'kind': 'first_length', 'delta': delta, 'max': mx})
+    for i in range(16):
+        cases.append({'kind': 'full_byte', 'bytes': [i]})
+    cases.append({'kind': 'full_byte', 'bytes': list(range(16))})
+    cases.append({'kind': 'full_byte', 'bytes': [0, 15]})
     configured = set(isogen.bits_of('PKG'))
     for bit in range(2, 129):
         if bit not in configured:
@@ -319,7 +330,8 @@ def describe(tier, seed):
                 'removed, DE26 removed / restored): each call is judged against the configuration as it is then. '
                 'Invalid classes: lengths 0..39 (valid from 24), '
                 'first length max-1/max/max+1/+2/+1000 under MAX_VBS_RECORD_LENGTH default/100/1012, each of the %d '
-                'unconfigured bits of 2..128 alone in the first bitmap: isValidIPM false with a non-empty reason.'
+                'unconfigured bits of 2..128 alone in the first bitmap, bitmaps with a completely set byte at each of the 16 '
+                'positions / all ones: isValidIPM false with a non-empty reason.'
                 % (ASCII_FAMILY, EBCDIC_FAMILY, 10 if tier == 'quick' else 14, 127 - len(isogen.bits_of('PKG'))),
         'assumptions': ['encoding family is judged semantically: the reported codec must decode the MTI to the digits '
                         'that were written and be ASCII- resp. EBCDIC-based',
